@@ -88,10 +88,10 @@ def hook_diff(got, exp):
         if len(g) < len(e):
             miss = next((x for i, x in enumerate(e) if i >= len(g) or g[i][:3] != x[:3]), e[-1])
             earlier = sum(1 for x in g if x[:3] == miss[:3])
-            res.append(f"{h} was called {len(g)} times for {len(e)} expanded calls: no call for {{{{{miss[1]}}}}} with arguments {miss[2]!r}"
+            res.append(f"{h} was called {len(g)}x for {len(e)} expanded calls: no call for {{{{{miss[1]}}}}} with arguments {miss[2]!r}"
                        + (f" (the same call was expanded {earlier}x before: every occurrence is a call of its own)" if earlier else ""))
         else:
-            res.append(f"{h} was called {len(g)} times for {len(e)} expanded calls")
+            res.append(f"{h} was called {len(g)}x for {len(e)} expanded calls")
     if not res:
         same = sorted(map(repr, (x[:2] for x in got))) == sorted(map(repr, (x[:2] for x in exp)))
         res.append("the hooks were called for the same calls in another order" if same and [x[:3] for x in got] != [x[:3] for x in exp]
